@@ -47,7 +47,18 @@ pub fn main() {
         q.push(l.split(',').map(|b| b.trim().parse::<u8>().expect("byte")).collect::<Vec<u8>>());
     }
     *krt::nd::QUEUE.lock().unwrap() = q;
-    std::panic::set_hook(Box::new(|_| {}));
+    std::panic::set_hook(Box::new(|info| {
+        use std::io::Write;
+        let msg = if let Some(s) = info.payload().downcast_ref::<&str>() {
+            s.to_string()
+        } else if let Some(s) = info.payload().downcast_ref::<String>() {
+            s.clone()
+        } else {
+            "panic with a non-string payload".to_string()
+        };
+        println!("PANIC: {}", msg.replace('\n', " "));
+        let _ = std::io::stdout().flush();
+    }));
     unsafe {
         LIVE = true;
         REUSED = false;
@@ -63,9 +74,6 @@ pub fn main() {
         println!("REACHED: {}", r);
     }
     let fails = krt::nd::FAILS.lock().unwrap();
-    for f in fails.iter() {
-        println!("FAIL: {}", f);
-    }
     println!("REPLAY-DONE fails={}", fails.len());
 }
 }
